@@ -8,23 +8,27 @@ Import ListNotations.
 
 Record hcase := {
   h_schema : schema;
-  h_topo : list nat;
+  h_topo : list nat;            (* resolver topology as observed *)
+  h_sorted : list nat;          (* state indexes in alphabetical name order *)
   h_health : list nat;
   h_exc : nat;
   h_qlimit : N;
   h_bindings : list (list hkey);
   h_actions : list haction;
   h_calls : list api_call;
-  h_oracle : list (list nat);   (* observed auto-mutation call orders *)
-  h_obs : trace                 (* what the implementation did *)
+  h_obs : trace;                (* what the implementation did *)
+  h_extra : list (list tev);    (* event sequences seen by additional tracers *)
+  h_rerun : N                   (* re-executions of the same case: 0 = all identical,
+                                   1 = results/times differ, 2 = handler calls differ,
+                                   3 = transition records differ *)
 }.
 
 Definition hist_fuel : nat := 5000.
 
 Definition model_trace (k : hcase) : trace :=
   run hist_fuel
-      (init_st (h_schema k) (h_topo k) (h_health k) (h_exc k) (h_bindings k)
-               (h_qlimit k) (h_actions k) (h_oracle k))
+      (init_st (h_schema k) (topo_sort (h_schema k) (h_sorted k)) (h_health k) (h_exc k)
+               (h_bindings k) (h_qlimit k) (h_actions k))
       (h_calls k).
 
 Fixpoint nlist_eqb (a b : list N) : bool :=
@@ -62,14 +66,15 @@ Definition txrec_eqb (a b : txrec) : bool :=
 Definition hlentry_eqb (a b : hlentry) : bool :=
   hkey_eqb (hl_key a) (hl_key b) && Nat.eqb (hl_binding a) (hl_binding b)
   && list_eqb (hl_active a) (hl_active b) && nlist_eqb (hl_clock a) (hl_clock b)
-  && lists_eqb result_eqb (hl_results a) (hl_results b).
+  && lists_eqb result_eqb (hl_results a) (hl_results b)
+  && Bool.eqb (hl_ret a) (hl_ret b).
 
 (* first differing observable, as a code *)
 Definition hist_mismatch (k : hcase) : list N :=
   let m := model_trace k in
   let o := h_obs k in
   if negb (tr_fuel_ok m) then [10%N]
-  else if tr_oracle_bad m then [9%N]
+  else if negb (list_eqb (h_topo k) (topo_sort (h_schema k) (h_sorted k))) then [11%N]
   else if negb (Bool.eqb (tr_crashed m) (tr_crashed o)) then [8%N]
   else if negb (lists_eqb txrec_eqb (tr_txs m) (tr_txs o)) then
     (if Nat.eqb (length (tr_txs m)) (length (tr_txs o)) then [5%N] else [4%N])
